@@ -2,6 +2,7 @@ import Model
 import Proofs.SchedInv
 import Proofs.WFCheck
 import Proofs.Aligned
+import Proofs.Inherit
 import Proofs.WFCheck
 /-!
 C02 — work is booked only inside the resource's working time.
@@ -104,5 +105,48 @@ theorem booked_every_second (p : RawProj) (h : wfCheck (elaborate p).env = true)
 example : calAlignedB { start := 1741564800, G := 3600, size := 400, gvac := [], gleaves := [(1742169600, 1742256000)] }
     { zone := some [(0, 3600), (1743296400, 7200)], hours := some { days := [[(480, 720), (780, 1020)], [], [], [], [], [], []] },
       leaves := [(1741651200, 1741737600)] } = true := by decide +kernel
+
+/-! ### which calendar applies: the nearest declaration (finding F55) -/
+
+/-- the hours of resource `i` in the elaborated calendars -/
+theorem resCals_hours (rs : List RawRes) (i : Nat) (hi : i < rs.length) :
+    ((resCals rs).getD i {}).hours =
+      (inheritOpt (rs.map (·.parent)) (((rs.map (·.shift)).zip (rs.map (·.hours))).map ownCal)).getD i none := by
+  unfold resCals resCalsCore
+  simp only [Array.getD_eq_getD_getElem?, Array.getElem?_map, List.getElem?_toArray, List.getElem?_range hi,
+    Option.map_some, Option.getD_some]
+
+/-- **a resource's own calendar wins**: a resource that declares working hours itself — through a shift reference or
+    inline (the shift reference first, if it has both) — works those hours, whatever its enclosing groups declare.
+    (The pinned code let a shift inherited from a group win over a resource's own inline hours: finding F55.) -/
+theorem own_calendar_wins (rs : List RawRes) (i : Nat) (hi : i < rs.length) (h : Hours)
+    (hown : ownCal ((rs.getD i {}).shift, (rs.getD i {}).hours) = some h) :
+    ((resCals rs).getD i {}).hours = some h := by
+  rw [resCals_hours rs i hi]
+  have hget : rs.getD i {} = rs[i] := by simp [List.getD_eq_getElem?_getD, hi]
+  rw [hget] at hown
+  apply inheritOpt_own _ _ i (by simp [hi])
+  simpa using hown
+
+/-- **… else the calendar of the enclosing group**: a resource that declares no hours of its own has the effective hours of
+    its parent (declared before it, as the parser produces) — which in turn are the parent's own or its parent's, so the
+    NEAREST declaration decides -/
+theorem calendar_from_enclosing_group (rs : List RawRes) (i p : Nat) (hi : i < rs.length)
+    (hnone : ownCal ((rs.getD i {}).shift, (rs.getD i {}).hours) = none) (hp : (rs.getD i {}).parent = some p) (hlt : p < i) :
+    ((resCals rs).getD i {}).hours = ((resCals rs).getD p {}).hours := by
+  rw [resCals_hours rs i hi, resCals_hours rs p (by omega)]
+  have hget : rs.getD i {} = rs[i] := by simp [List.getD_eq_getElem?_getD, hi]
+  rw [hget] at hnone hp
+  apply inheritOpt_from_parent _ _ i p (by simp [hi])
+  · simpa using hnone
+  · simpa using hp
+  · exact hlt
+
+/-- non-vacuity and the witness of F55: a group that refers to a shift (9-17) with a member that declares 6-10 -/
+example :
+    let sh : Hours := { days := [[(540, 1020)], [(540, 1020)], [(540, 1020)], [(540, 1020)], [(540, 1020)], [], []] }
+    let own : Hours := { days := [[(360, 600)], [(360, 600)], [(360, 600)], [(360, 600)], [(360, 600)], [], []] }
+    let rs : List RawRes := [{ shift := some sh }, { parent := some 0, hours := some own }]
+    ownCal ((rs.getD 1 {}).shift, (rs.getD 1 {}).hours) = some own := rfl
 
 end SP.C02
